@@ -496,7 +496,7 @@ def _k_compare(case, m, o):
         # WHICH of several names titles a column is fixed by the property only where a preferred name is declared for that
         # variable; elsewhere any of the column's names is as good as the model's choice (no verdict on such a difference)
         c = plain[j] if plain else None
-        if c is not None and c not in prefd and (tr == c or chain_end(al, tr) == c) and not shadowed(case):
+        if c is not None and c not in prefd and (tr == c or chain_end(al, tr) == c):
             continue
         return 'export titles: model=%s impl=%s' % ([x for x, _ in me], fr['cols'])
     for j, (t, src) in enumerate(me):
